@@ -5,6 +5,7 @@ package interp
 // base and is counted in the evidence when used.
 
 import (
+	"unicode/utf8"
 	"fmt"
 	"go/token"
 	"go/types"
@@ -660,21 +661,62 @@ func extRuneCountInString(fr *frame, a []value) value { return runeCountSym(fr, 
 func extRuneCount(fr *frame, a []value) value         { return runeCountSym(fr, mustBytes(a[0])) }
 func extFullRune(fr *frame, a []value) value {
 	b := mustBytes(a[0])
-	if len(b) == 0 {
+	n := len(b)
+	if n == 0 {
 		return false
 	}
-	if len(b) >= 4 {
+	if n > 4 {
+		b, n = b[:4], 4
+	}
+	allc := true
+	buf := make([]byte, n)
+	for i, x := range b {
+		c, ok := x.(byte)
+		if !ok {
+			allc = false
+			break
+		}
+		buf[i] = c
+	}
+	if allc {
+		return utf8.FullRune(buf)
+	}
+	ex := fr.i.ex
+	u8 := func(v uint64) *Term { return mkConst(v, 8, false) }
+	in := func(i int, lo, hi uint64) bool {
+		t := liftVal(b[i])
+		return ex.decide(mkAnd(mkLe(u8(lo), t), mkLe(t, u8(hi))))
+	}
+	// needed length and accept range of the second byte, by lead byte class
+	need, lo, hi := 1, uint64(0x80), uint64(0xBF)
+	switch {
+	case in(0, 0xC2, 0xDF):
+		need = 2
+	case in(0, 0xE0, 0xEF):
+		need = 3
+		if in(0, 0xE0, 0xE0) {
+			lo = 0xA0
+		} else if in(0, 0xED, 0xED) {
+			hi = 0x9F
+		}
+	case in(0, 0xF0, 0xF4):
+		need = 4
+		if in(0, 0xF0, 0xF0) {
+			lo = 0x90
+		} else if in(0, 0xF4, 0xF4) {
+			hi = 0x8F
+		}
+	}
+	if n >= need {
 		return true
 	}
-	// full iff decoding does not fail for lack of bytes: compare with padded decode
-	_, n := decodeRuneSym(fr, b)
-	if n > 1 {
+	if n > 1 && !in(1, lo, hi) {
 		return true
 	}
-	// n==1: either ASCII/invalid (full) or a truncated multi-byte prefix (not full)
-	pad := append(append([]value{}, b...), byte(0x80), byte(0x80), byte(0x80))
-	_, m := decodeRuneSym(fr, pad)
-	return m <= len(b)
+	if n > 2 && !in(2, 0x80, 0xBF) {
+		return true
+	}
+	return false
 }
 
 // ---- integer formatting with symbolic operands ----
